@@ -32,6 +32,9 @@ structure Susp where
   id : TID
   /-- the entry as re-registered by the first half (attempt already advanced) -/
   tx : Txn
+  /-- the agent deadline, computed from the clock BEFORE the transaction is registered again (so a clock that moves
+      while the collector is suspended does not change it) -/
+  deadline : Nat := 0
   /-- the events of the same `Collect` that the collector goroutine has not handled yet: it handles them one after
       the other, so they wait for this `Write` -/
   rest : List (TID × CEv) := []
@@ -59,14 +62,14 @@ def retransmitEnd (c : Client) (s : Susp) (ok : Bool) : Client × List COut :=
     the attempt advanced and the transaction registered with the client again -/
 def retransmitPre (c : Client) (tx : Txn) (id : TID) : Client × Susp :=
   let tx' := { tx with attempt := tx.attempt + 1 }
-  (c.insert tx', { kind := .agentStart, h := tx.h, id := id, tx := tx' })
+  (c.insert tx', { kind := .agentStart, h := tx.h, id := id, tx := tx', deadline := nextTimeout tx' c.now })
 
 /-- … and from there on; `inject`: the agent's `Start` fails (a custom ClientAgent may; the stock Agent does when it
     was closed meanwhile). On an error the client finishes the transaction only if it is still the one registered
     under its id. The write that follows a successful `Start` does not block here. -/
 def retransmitPost (c1 : Client) (s : Susp) (inject : Bool) : Client × List COut :=
   let stale := c1.lookup s.id != some s.tx
-  let r := c1.agent.start s.id (nextTimeout s.tx c1.now)
+  let r := c1.agent.start s.id s.deadline
   let err : Option AErr := if inject then some .closed else r.2
   match err with
   | some e =>
@@ -82,31 +85,6 @@ def retransmitPost (c1 : Client) (s : Susp) (inject : Bool) : Client × List COu
       let st := c3.agent.stop s.id
       ({ c3 with agent := st.1 },
         [.write s.tx.raw (some s.h), .call s.h s.id (if st.2.1.isSome then .stopErr else .writeErr)])
-
-/-- with nothing in between and no injected failure, the two parts around `ClientAgent.Start` are the L1
-    retransmission (the entry just inserted is found again, provided its id was free) -/
-theorem retransmit_split2 (c : Client) (tx : Txn) (id : TID)
-    (hfree : (c.insert { tx with attempt := tx.attempt + 1 }).lookup id = some { tx with attempt := tx.attempt + 1 }) :
-    retransmit c tx id = retransmitPost (retransmitPre c tx id).1 (retransmitPre c tx id).2 false := by
-  unfold retransmit retransmitPost retransmitPre
-  simp only [hfree, bne_self_eq_false, Bool.false_eq_true, if_false]
-  generalize ((c.insert { tx with attempt := tx.attempt + 1 }).agent.start id
-    (nextTimeout { tx with attempt := tx.attempt + 1 } (c.insert { tx with attempt := tx.attempt + 1 }).now)) = r
-  obtain ⟨a, e⟩ := r
-  cases e with
-  | some err => rfl
-  | none =>
-    simp only
-    have hw : (({ c.insert { tx with attempt := tx.attempt + 1 } with agent := a } : Client).connWrite tx.raw).1.lookup id
-        = some { tx with attempt := tx.attempt + 1 } := by
-      have : (({ c.insert { tx with attempt := tx.attempt + 1 } with agent := a } : Client).connWrite tx.raw).1.t
-          = (c.insert { tx with attempt := tx.attempt + 1 }).t := by
-        unfold Client.connWrite; split <;> rfl
-      unfold Client.lookup at hfree ⊢
-      rw [this]; exact hfree
-    split
-    · rfl
-    · simp only [hw, bne_self_eq_false, Bool.false_eq_true, if_false]
 
 /-- `Start` with a handler up to the point where `Connection.Write` is entered -/
 def startBegin (c : Client) (id : TID) (raw : Bytes) (h : Nat) : Client × Option CErr × List COut × Option Susp :=
